@@ -742,11 +742,11 @@ LATTICES = {
     # wide : boundary sizes, three names sharing extension / folder, every rejected operation, read-only handles
     'wide': ({'names': NAMES[:3], 'sizes': 'edge', 'errors': True, 'new': True, 'ro': True}, ('w', 'a'), 3, 4),
     # deep : long histories through flush / reopen 'a' / reopen 'w' with two files that both have an archive part
-    'deep': ({'names': NAMES[:2], 'sizes': 'two', 'errors': False, 'new': False, 'ro': False}, ('w',), 5, 7),
+    'deep': ({'names': NAMES[:2], 'sizes': 'two', 'errors': False, 'new': False, 'ro': False}, ('w',), 5, 6),
     # sizes: every ordered pair (triple) of sizes of the full menu on two names
     'sizes': ({'names': NAMES[:2], 'sizes': 'full', 'errors': False, 'new': False, 'ro': False}, ('w',), 2, 3),
     # names: all six names (no extension, empty stem, nested folders): directory tree clean-up on delete
-    'names': ({'names': NAMES, 'sizes': 'one', 'errors': False, 'new': False, 'ro': False}, ('w',), 3, 4),
+    'names': ({'names': NAMES, 'sizes': 'one', 'errors': False, 'new': False, 'ro': False}, ('w',), 3, 5),
     # full : all names x all sizes x all rejected operations, shallow
     'full': ({'names': NAMES, 'sizes': 'full', 'errors': True, 'new': True, 'ro': True}, ('w', 'a'), 1, 2),
 }
